@@ -44,8 +44,8 @@ METAS = ["poetry", "pdm", "setup", "none"]
 
 def plan(tier: str, seed: int) -> dict:
     if tier == "quick":
-        return {"n_runs": 1_000_000, "budget_s": 60, "min_runs": 500, "minimise_s": 40}
-    return {"n_runs": 100_000_000, "budget_s": 900, "min_runs": 5000, "minimise_s": 90}
+        return {"n_runs": 1_000_000, "budget_s": 60, "min_runs": 100, "minimise_s": 40}
+    return {"n_runs": 100_000_000, "budget_s": 900, "min_runs": 1000, "minimise_s": 90}
 
 
 # ---------------------------------------------------------------------- spec construction
